@@ -49,7 +49,7 @@ claim("C02", "other",
       "Trusted: the may-value-flow engine (imprecision can only add producers, i.e. cause a report), the exceptions table for un-sent NOPs (1 entry), the list of interactive helpers, MIR construction.",
       "builder value-flow (producer sets, taint) + variant-conditioned abstract interpretation over MIR (custom rustc_private lint)")
 claim("C19", "other",
-      "Decides only the share-provenance clause of the compiled join (the property's own last mechanism): rules S/N/Z of C02 restricted to mpc/mpc_psi.rs - Send only on NOPs, every NOP sent, zero-sharing elements sent before use as replicated shares. Reports the known finding (zero_pad_column, share_column, random_pad_columns). Relational semantics of joins are NOT decided.",
+      "Decides only the share-provenance clause of the compiled join (the property's own last mechanism): rules S/N/Z of C02 restricted to mpc/mpc_psi.rs - Send only on NOPs, every NOP sent, zero-sharing elements sent before use as replicated shares; plus the party-arithmetic (D) and component-locality (H) rules on the same file. Reports the known finding (zero_pad_column, share_column, random_pad_columns). Relational semantics of joins are NOT decided.",
       "DESIGN.md section 3, C19",
       "Same trusted base as C02.",
       "builder value-flow (producer sets, taint) over MIR (custom rustc_private lint)")
